@@ -810,7 +810,9 @@ func (r *reader) read(src []byte) {
 			}
 		}
 		if r.one && 0 < len(r.code) {
-			if b == ')' {
+			switch b {
+			case ')', '"', '|':
+				// the byte that completed the form is part of it
 				r.pos++
 			}
 			return
